@@ -6,7 +6,9 @@ A case is JSON-able:
    'sched': None | [choices]}     schedule prefix for vlib.sched (None: never preempt)
   spec = {'name', 'cls': 'L'|'IO'|'HIO'|'PIN', 'export': bool, 'poll': bool, 'writes': [pname],
           'atts': [[aname, target|None, mandatory, kind]], 'te': [aname], 'ti': [aname], 'fe': bool, 'fi': bool,
-          'uri': str|None, 'scan': [name], 'delay': seconds}
+          'uri': str|None, 'scan': [name], 'delay': seconds,
+          'wfail': [[pname, exception class name]],      start-up faults: write_<pname> raises (optional field)
+          'rfail': class name|None, 'pfail': class name|None}    initialReads / the first poll raises (optional fields)
 kinds: 0 = any Module, 1 = Communicator.  'HIO' is a frappy.io.HasIO user (attachment `io`, optional `uri`).
 
 The real `Server._processCfg` is run (unbound, on a stub carrying exactly the attributes it reads) inside a managed thread of
@@ -30,7 +32,8 @@ from vlib import sched as vsched
 from vlib.node import patch_version
 
 ATT_NAMES = ['a0', 'a1', 'a2', 'a3', 'a4']
-WRITE_NAMES = ['w0', 'w1']
+WRITE_NAMES = ['w0', 'w1', 'w2']
+FAULT_CLASSES = ['HardwareError', 'CommunicationFailedError', 'SilentCommunicationFailedError', 'RuntimeError', 'ValueError']
 TIMEOUT = 30           # Server._processCfg: MultiEvent(default_timeout=30)
 
 _state = types.SimpleNamespace(log=None, specs=None, sched=None, seen_poll=None)
@@ -81,22 +84,50 @@ class Instr:
         _ev('shutdown', self.name)
         super().shutdownModule()
 
+    def initialReads(self):
+        _ev('initread', self.name)
+        super().initialReads()
+        _raise_fault(self.name, _state.specs.get(self.name, AUTO_SPEC).get('rfail'))
+
     def read_pv(self):
         if _state.shutdown_seen:
             _ev('latepoll', self.name)            # a poll thread is still working after a module was shut down
         if self.name not in _state.seen_poll:
             _state.seen_poll.add(self.name)
             _ev('firstpoll', self.name)
-            d = _state.specs.get(self.name, AUTO_SPEC).get('delay') or 0
+            sp = _state.specs.get(self.name, AUTO_SPEC)
+            d = sp.get('delay') or 0
             if d:
                 import frappy.modulebase
                 frappy.modulebase.time.sleep(d)
+            _raise_fault(self.name, sp.get('pfail'))
         return 0.0
+
+
+def _fault(clsname):
+    """the exception a faulty driver / device raises"""
+    import frappy.errors
+    cls = getattr(frappy.errors, clsname, None) or {'RuntimeError': RuntimeError, 'ValueError': ValueError}[clsname]
+    return cls('injected fault')
+
+
+COMM_CLASSES = ('CommunicationFailedError', 'SilentCommunicationFailedError')
+
+
+def _raise_fault(modname, clsname):
+    """fault of the environment in initialReads / the first poll; a communication failure is part of the observation"""
+    if clsname:
+        if clsname in COMM_CLASSES:
+            _ev('comfail', modname)
+        raise _fault(clsname)
 
 
 def _make_write(pname):
     def write(self, value):
-        _ev('write', self.name, pname)
+        _ev('write', self.name, pname)          # the attempt: the value reaches the driver
+        for p, clsname in _state.specs.get(self.name, AUTO_SPEC).get('wfail') or ():
+            if p == pname:
+                raise _fault(clsname)           # the device refuses / the driver code is broken
         return value
     write.__name__ = 'write_' + pname
     return write
@@ -372,10 +403,16 @@ def run_case(case, policy=None, max_steps=200000):
 # generators
 # =========================================================================================================
 def mkspec(name, cls='L', export=True, poll=True, writes=(), atts=(), te=(), ti=(), fe=False, fi=False, uri=None,
-           scan=(), delay=0):
+           scan=(), delay=0, wfail=(), rfail=None, pfail=None):
     return {'name': name, 'cls': cls, 'export': bool(export), 'poll': bool(poll), 'writes': list(writes),
             'atts': [list(a) for a in atts], 'te': list(te), 'ti': list(ti), 'fe': bool(fe), 'fi': bool(fi),
-            'uri': uri, 'scan': list(scan), 'delay': int(delay)}
+            'uri': uri, 'scan': list(scan), 'delay': int(delay), 'wfail': [list(w) for w in wfail], 'rfail': rfail,
+            'pfail': pfail}
+
+
+def random_write_faults(rng, writes, p):
+    """every configured write fails with probability p, with an exception class of the catalogue"""
+    return [[w, rng.choice(FAULT_CLASSES)] for w in writes if rng.random() < p]
 
 
 def all_graphs(n):
@@ -419,7 +456,8 @@ def random_graph(rng, n, acyclic):
     return [(i, j) for i in range(n) for j in range(n) if (i != j or rng.random() < 0.3) and rng.random() < p]
 
 
-VARIANTS = ['plain', 'plain', 'plain', 'plain', 'touchy', 'touchy', 'fail', 'missing', 'hio', 'hio', 'pin', 'slow']
+VARIANTS = ['plain', 'plain', 'plain', 'plain', 'touchy', 'touchy', 'fail', 'missing', 'hio', 'hio', 'pin', 'slow',
+            'wfault', 'wfault', 'sfault', 'sfault']
 
 
 def build_case(rng, n, edges, variant):
@@ -433,11 +471,32 @@ def build_case(rng, n, edges, variant):
         if variant == 'touchy' and rng.random() < 0.3:
             ti = ti + ti[:1]                 # used twice
         writes = rng.choice([[], [], ['w0'], ['w1'], ['w0', 'w1']])
+        wfail, rfail, pfail = [], None, None
+        if variant == 'sfault':
+            # faults anywhere in the start-up sequence of the poll threads: writes, initial reads, first polls
+            writes = rng.choice([['w0', 'w1'], ['w0', 'w1', 'w2'], ['w1'], ['w0'], []])
+            wfail = random_write_faults(rng, writes, rng.choice([0.0, 0.3]))
+            if rng.random() < 0.35:
+                rfail = rng.choice(FAULT_CLASSES)
+            if rng.random() < 0.35:
+                pfail = rng.choice(FAULT_CLASSES)
+        elif rng.random() < 0.05:
+            rfail = rng.choice(FAULT_CLASSES)
+        elif rng.random() < 0.05:
+            pfail = rng.choice(FAULT_CLASSES)
+        if variant == 'wfault':
+            # start-up faults: several configured values, any of the writes refused / crashing (any position)
+            writes = rng.choice([['w0', 'w1'], ['w0', 'w1', 'w2'], ['w0', 'w1', 'w2'], ['w1', 'w2'], ['w0', 'w2'], ['w1'], []])
+            wfail = random_write_faults(rng, writes, rng.choice([0.3, 0.5, 1.0]))
+        elif writes and rng.random() < 0.15:
+            wfail = random_write_faults(rng, writes, 0.6)
         mods.append(mkspec('m%d' % i, export=rng.random() < 0.7, poll=rng.random() < 0.7, writes=writes, atts=atts,
-                           te=te, ti=ti))
+                           te=te, ti=ti, wfail=wfail, rfail=rfail, pfail=pfail))
         if rng.random() < 0.25 and 'a4' not in [x[0] for x in atts]:
             mods[-1]['atts'].append(['a4', None, False, 0])        # optional attachment left empty
     dyn = []
+    if variant in ('wfault', 'sfault') and rng.random() < 0.5:
+        variant = 'hio'                     # ... on modules sharing the poll thread of a communicator
     if variant == 'fail' and mods:
         m = rng.choice(mods)
         m[rng.choice(['fe', 'fi'])] = True
@@ -482,8 +541,9 @@ def build_case(rng, n, edges, variant):
         for dn in names:
             targets = rng.sample(range(n), min(n, rng.choice([0, 1, 2]))) if n else []
             atts = [['a%d' % j, 'm%d' % j, True, 0] for j in targets]
+            writes = rng.choice([[], ['w0'], ['w0', 'w1']])
             dyn.append(mkspec(dn, export=rng.random() < 0.7, poll=rng.random() < 0.7,
-                              writes=rng.choice([[], ['w0']]), atts=atts,
+                              writes=writes, atts=atts, wfail=random_write_faults(rng, writes, 0.3),
                               ti=[a[0] for a in atts if rng.random() < 0.5]))
         pin = mkspec('p', cls='PIN', export=rng.random() < 0.3, poll=rng.random() < 0.5, scan=names)
         mods.insert(rng.randint(0, len(mods)), pin)
@@ -501,6 +561,40 @@ def build_case(rng, n, edges, variant):
         for m in rng.sample(mods, min(len(mods), rng.choice([1, 1, 2]))):
             m['delay'] = rng.choice([4, 100, 100])
     return {'mods': mods, 'dyn': dyn, 'sched': None}
+
+
+def fault_case(rng):
+    """a clean configuration (the node comes up) whose poll threads serve several modules, with faults anywhere in the
+    start-up sequence: refused / crashing writes, failing initial reads, failing first polls (all exception classes of
+    the catalogue, communication failures included), in a random declaration order"""
+    k = rng.choice([1, 2, 2, 3, 3, 4])
+    mode = rng.choice(['explicit', 'explicit', 'uri', 'own'])
+    mods = []
+
+    def faults(sp, p):
+        sp['wfail'] = random_write_faults(rng, sp['writes'], rng.choice([0.0, 0.0, 0.4]))
+        if rng.random() < p:
+            sp['rfail'] = rng.choice(FAULT_CLASSES + list(COMM_CLASSES))
+        if rng.random() < p:
+            sp['pfail'] = rng.choice(FAULT_CLASSES + list(COMM_CLASSES))
+        return sp
+
+    if mode == 'explicit':
+        mods.append(faults(mkspec('io', cls='IO', poll=rng.random() < 0.5, export=rng.random() < 0.8,
+                                  writes=rng.choice([[], [], ['w0']])), 0.15))
+    p = rng.choice([0.15, 0.3, 0.5])
+    for i in range(k):
+        writes = rng.choice([[], ['w0'], ['w1'], ['w0', 'w1'], ['w0', 'w1', 'w2'], ['w2']])
+        sp = mkspec('u%d' % i, cls='L' if mode == 'own' else 'HIO', poll=rng.random() < 0.75, export=rng.random() < 0.8,
+                    writes=writes, delay=rng.choice([0, 0, 0, 0, 4]))
+        if mode == 'explicit':
+            sp['atts'].append(['io', 'io', False, 0])
+        elif mode == 'uri':
+            sp['atts'].append(['io', None, False, 0])
+            sp['uri'] = rng.choice(['x://1', 'x://1', 'x://2'])
+        mods.append(faults(sp, p))
+    rng.shuffle(mods)
+    return {'mods': mods, 'dyn': [], 'sched': None}
 
 
 # =========================================================================================================
@@ -591,8 +685,10 @@ def features(case):
                 items.append((f, sp['name'], i))
         for w in sp['writes']:
             items.append(('w', sp['name'], w))
-        for f in ('fe', 'fi', 'delay', 'uri'):
-            if sp[f]:
+        for w, _c in sp.get('wfail') or []:
+            items.append(('wf', sp['name'], w))
+        for f in ('fe', 'fi', 'delay', 'uri', 'rfail', 'pfail'):
+            if sp.get(f):
                 items.append((f, sp['name']))
         if not sp['export']:
             items.append(('noexport', sp['name']))
@@ -618,9 +714,12 @@ def rebuild(case, items):
                        te=[a for i, a in enumerate(sp['te']) if ('te', n, i) in items and a in have],
                        ti=[a for i, a in enumerate(sp['ti']) if ('ti', n, i) in items and a in have],
                        writes=[w for w in sp['writes'] if ('w', n, w) in items],
+                       wfail=[list(w) for w in sp.get('wfail') or [] if ('wf', n, w[0]) in items and ('w', n, w[0]) in items],
                        fe=sp['fe'] and ('fe', n) in items, fi=sp['fi'] and ('fi', n) in items,
                        delay=sp['delay'] if ('delay', n) in items else 0,
                        uri=sp['uri'] if ('uri', n) in items else None,
+                       rfail=sp.get('rfail') if ('rfail', n) in items else None,
+                       pfail=sp.get('pfail') if ('pfail', n) in items else None,
                        export=('noexport', n) not in items if sp['cls'] != 'PIN' else sp['export'],
                        poll=('poll', n) in items)
             out[key].append(new)
@@ -660,6 +759,8 @@ def shrink(ctx, case, clause):
 def signature(case, clause, obs):
     """short stable description of what fails"""
     specs = case['mods'] + case.get('dyn', [])
+    if clause == 'writes_skipped_after_comm_failure':
+        return 'C15:writes_skipped_after_comm_failure'      # the clause itself is the class (decided by the Lean judge)
     if clause == 'attached_ready':
         failed = {e[1] for e in obs['errors'] if e[0] == 'init'}
         inits = set()
@@ -679,6 +780,10 @@ def signature(case, clause, obs):
         tag = 'typed'
     elif any(sp['fe'] or sp['fi'] for sp in specs):
         tag = 'failing-init'
+    elif any(sp.get('wfail') for sp in specs):
+        tag = 'write-fault'
+    elif any(sp.get('rfail') or sp.get('pfail') for sp in specs):
+        tag = 'startup-fault'
     elif obs['errors']:
         tag = 'errors'
     elif any(not sp['export'] for sp in specs if sp['cls'] != 'PIN'):
@@ -689,30 +794,41 @@ def signature(case, clause, obs):
 
 
 META = {
-    'level_text': 'Proved for all inputs on the Lean model of the repaired code: sorted_modules_topological (_getSortedModules returns '
-                  'every module once and users first on every graph with a topological numbering, for every choice of set.pop()), '
-                  'shutdown_phase_order (stopPoll before shutdown, once each, users first), ready_only_after_first_round (every '
-                  'schedule: ready only when every started poll thread reported its first round or the deadline passed).  '
-                  'init_order_once, attached_ready, bad_attachment_reported, writes_before_first_poll are stated in Lean but NOT '
-                  'proved; for them the evidence is differential: the real Server._processCfg + SecNode.shutdown_modules run with '
-                  'instrumented module classes under the deterministic scheduler on all attachment graphs up to 4 modules (thorough: '
-                  'all DAGs on 5 + sampled cyclic graphs), the model predicts every log exactly, and the Lean monitors judge every '
-                  'implementation log.  attached_ready has a recorded finding (proved counterexample attached_ready_fails).',
+    'level_text': 'Proved on the Lean model (of the repaired code), for every configuration, fuel, schedule of start loop / poll '
+                  'threads / clock and choice function of set.pop(): attached_ready, no_half_start, ready_after_first_round, '
+                  'poll_threads_stopped (whole runs); sorted_modules_topological, shutdown_phase_order, shutdown_order_whole_run '
+                  '(resolved attachments assumed acyclic); init_order_once_partial; multievent_wait_sound (MultiEvent at the '
+                  'granularity of its primitives); acyclicB_iff.  Start-up faults (any exception in write_<p>, initialReads, '
+                  'first polls): write_faults_lose_no_write (writeInitParams hands every configured value to its write method '
+                  'whatever any of them raises), startup_sequence_complete, no_write_after_first_poll (FULL: no configured value '
+                  'is written after the first poll of its module - every schedule, any faults; uses the proved invariant '
+                  'startup_groupsOk: no module is registered twice for polling), writes_before_first_poll_partial (exactly once, '
+                  'for threads whose initial reads meet no communication failure).  NOT proved, kept as statements: '
+                  'init_order_once (full), bad_attachment_reported first half, writes_before_first_poll against the Spec\'s module '
+                  'list (false on the code that exists: recorded finding comm_failure_skips_writes), shutdown_order against the '
+                  'declared attachments; for these the evidence is differential: the real Server._processCfg + '
+                  'SecNode.shutdown_modules run with instrumented module classes (fault injection included) under the '
+                  'deterministic scheduler on all attachment graphs up to 4 modules (thorough: all DAGs on 5 + sampled cyclic '
+                  'graphs), the model predicts every log exactly, and the Lean monitors judge every implementation log.',
     'level_note': 'Trusted: Lean kernel + axioms propext/Classical.choice/Quot.sound; vlib.sched (virtual clock, gated threads); '
                   'multievent.py is re-executed from source with the scheduler\'s threading/time; the instrumented classes log '
-                  'before calling super(); acyclicity is characterised by a rank function (topological numbering).',
+                  'before calling super(); injected faults are raised by the instrumented write_/initialReads/read_ methods '
+                  '(a communication failure is logged as part of the observation).',
     'trusted': [
         'vlib.sched: gated real threads + virtual clock reproduce an admissible interleaving of the real threads',
-        'the instrumented module classes (log, then super()) do not change the lifecycle',
-        'a finite graph is acyclic iff it has a topological numbering (`Ranked`); the monitor uses Kahn stripping',
+        'the instrumented module classes (log, then super(), then the injected fault) do not change the lifecycle',
+        'the abstract MultiEvent of the start-phase theorems is atomic; the harness checks on every run that the real primitives '
+        'follow the protocol model for which multievent_wait_sound is proved',
     ],
     'modelled_not_verified': [
         'Module.__init__ (property/parameter configuration) — only "mandatory attachment without value" is modelled',
-        'the poll loop after the first round; communication failures during the first round',
+        'the poll loop after the first polls (only the first poll of each module in the main loop after a broken-off start-up '
+        'sequence is modelled); reconnect callbacks',
         'Dispatcher, interfaces, daemonising, signal handling, restart',
     ],
     'assumptions': ['Pinatas are declared statically and have no attachments of their own',
-                    'module names are distinct from the names of automatically created communicators'],
+                    'module names are distinct from the names of automatically created communicators',
+                    'exceptions raised by drivers are Exception subclasses (no BaseException)'],
 }
 
 
@@ -732,8 +848,13 @@ def run(ctx):
         # every variant, on 4 modules with one (quick) / three (thorough) random variants
         for n in (1, 2, 3):
             for edges in all_graphs(n):
-                for v in (['plain', 'touchy', 'fail', 'missing', 'hio', 'pin', 'slow'] if n > 1 else VARIANTS):
+                for v in (['plain', 'touchy', 'fail', 'missing', 'hio', 'pin', 'slow', 'wfault', 'sfault'] if n > 1 else VARIANTS):
                     yield f'n{n}', build_case(rng, n, edges, v)
+        for i in range(ctx.budget(400, 4000)):      # start-up faults on shared poll threads; every third under a random schedule
+            c = fault_case(rng)
+            if i % 3 == 2:
+                c['_random_sched'] = True
+            yield 'faults', c
         for _ in range(ctx.budget(300, 3000)):      # self loops, random schedules
             n = rng.choice([2, 3, 4])
             c = build_case(rng, n, random_graph(rng, n, rng.random() < 0.7), rng.choice(VARIANTS + ['slow', 'hio']))
@@ -751,7 +872,7 @@ def run(ctx):
                 yield 'n5rnd', build_case(rng, 5, random_graph(rng, 5, False), rng.choice(VARIANTS))
 
     cases = gen_cases()
-    t_end = time.time() + (42 if ctx.tier == 'quick' else 11 * 60)
+    t_end = time.time() + (36 if ctx.tier == 'quick' else 11 * 60)
     reqs, metas = [], []
     for kind, case in cases:
         if time.time() > t_end:
@@ -771,7 +892,7 @@ def run(ctx):
         {'mods': [mkspec('m0'), mkspec('m1')], 'dyn': [], 'sched': None},
         {'mods': [mkspec('m0', writes=['w0']), mkspec('m1', poll=False, writes=['w0']), mkspec('m2')], 'dyn': [], 'sched': None},
     ]
-    t_exp = time.time() + (14 if ctx.tier == 'quick' else 150)
+    t_exp = time.time() + (12 if ctx.tier == 'quick' else 150)
     for scen in scenarios:
         def make_run(policy, scen=scen):
             c = json.loads(json.dumps(scen))
@@ -788,6 +909,11 @@ def run(ctx):
         res.count('explore.runs', nrun)
     answers = ctx.driver.batch(reqs, timeout=600)
     seen_sigs = set()
+    try:        # recorded findings are reported as they are: no time is spent on shrinking them
+        with open(os.path.join(ctx.verif, 'known_findings', 'C15.json')) as f:
+            recorded = {k['signature'] for k in json.load(f).get('findings', [])}
+    except (OSError, ValueError):
+        recorded = set()
     for j, (kind, case, obs) in enumerate(metas):
         model, judge, follow = answers[3 * j], answers[3 * j + 1], answers[3 * j + 2]
         if 'driver_error' in model or 'driver_error' in judge or 'driver_error' in follow:
@@ -800,6 +926,10 @@ def run(ctx):
         res.count('outcome.' + ('crash' if obs['crash'] else 'errors' if obs['errors'] else 'up'))
         res.count('cfg.' + ('clean' if judge['clean'] else 'bad-attachment' if judge['bad'] else 'other-defect'))
         res.count('attachments.%s' % (natt if natt < 4 else '4+'))
+        if not obs['errors']:
+            comm = [sp for sp in specs for f in ('rfail', 'pfail') if sp.get(f) in COMM_CLASSES]
+            other = [sp for sp in specs if sp.get('wfail') or sp.get('rfail') or sp.get('pfail')]
+            res.count('faults.' + ('comm-failure' if comm else 'other-exception' if other else 'none'))
         if len(specs) >= 2 and natt >= 1:
             res.nontriv(wire_cfg(case))
         if len(res.samples) < 4 and natt >= 2 and len(obs['log']) < 40 and (len(res.samples) % 2 == 0) == bool(obs['errors']):
@@ -826,6 +956,11 @@ def run(ctx):
             if sig0 in seen_sigs:
                 continue
             seen_sigs.add(sig0)
+            if sig0 in recorded:
+                res.violations.append({'sig': sig0, 'what': f'{clause} broken: cfg={json.dumps(wire_cfg(case))} '
+                                                            f'log={[" ".join(e) for e in obs["log"]]} errors={obs["errors"]}',
+                                       'case': case, 'detail': {'clause': clause, 'original': case}})
+                continue
             small = shrink(ctx, case, clause)
             o2, _ = observe(small)
             seen_sigs.add(signature(small, clause, o2))
